@@ -1,6 +1,6 @@
 """Read-site inventory for configuration options (shared by C10, C15, C18)."""
 from .facts import callee_def, op_place, op_const, is_bare
-from .util import (ends, site, fn_key, callee_method, final_uses, field_reads, field_accesses)
+from .util import (ends, site, fn_key, callee_method, final_uses, field_reads, field_accesses, agg_operand_index)
 
 OWNERS = ("config::Config", "HtmlContext", "render::text_renderer::RenderOptions")
 
@@ -24,6 +24,13 @@ def classify_reads(F, owner, name):
             # &options.field: follow the reference local like a value
             if st is not None and is_bare(st["lhs"]):
                 dest = st["lhs"]["l"]
+        oi = agg_operand_index(st, owner, name)
+        if oi is not None:
+            # read directly as an operand of a struct literal (struct-update syntax `S { a, ..self }`)
+            rv = st["rv"]
+            fld = rv["fields"][oi] if oi < len(rv.get("fields", [])) else "?"
+            out.append(dict(body=b, bb=bb, site=s, kind="plumbing", detail=("agg", rv.get("adt") or rv.get("def") or rv["agg"], fld)))
+            continue
         if dest is None:
             out.append(dict(body=b, bb=bb, site=s, kind="opaque", detail=acc))
             continue
